@@ -11,7 +11,7 @@ pub fn meta() -> PropertyMeta {
     PropertyMeta {
         id: "C12",
         level: "exploration",
-        rule: "operation sequences (0..60 steps of push(arbitrary standard/custom/extended error), pop, clear, length, is_empty) run in lock-step against a VecDeque model, on Vec<Error> (unbounded) and on ArrayVec<Error, N> for every N in 1..=8 and for 16, 17, 32 (with push-heavy sequences of up to 200 steps); return values and length compared after every step, full drain compared at the end. Non-trivial: the sequence overflows, pops and overflows again, or interleaves at least three push/pop alternations.",
+        rule: "operation sequences (0..60 steps of push(arbitrary standard/custom/extended error), pop, clear, length, is_empty) run in lock-step against a VecDeque model, on Vec<Error> (unbounded) and on ArrayVec<Error, N> for every N in 1..=8 and for 16, 17, 32 (with push-heavy sequences of up to 200 steps); return values and length compared after every step, full drain compared at the end. Added: EVERY sequence of up to 8 (9) operations over {push x, push y, push long-text, pop, clear} on the unbounded queue and capacities 1..4; device-dependent texts of 0..70000 bytes; an unbounded queue of 65534 .. 70000 items. Non-trivial: the sequence overflows, pops and overflows again, or interleaves at least three push/pop alternations.",
         assumptions: &["capacities 1..=8 stand for 'all capacities >= 1' (const-generic dispatch)"],
         run,
     }
